@@ -44,6 +44,7 @@ impl Rng {
 #[derive(Clone, Copy, Debug, PartialEq, Eq, PartialOrd, Ord)]
 pub enum Class {
     Result,     // returned value differs from the oracle value supplied by TLC
+    Count,      // count() of a partially consumed iterator differs from the oracle
     Oob,        // a load outside the slices given
     Misaligned, // an aligned load at an unaligned address
     Panic,      // panic inside the documented domain / missing documented panic
@@ -54,6 +55,7 @@ impl Class {
     pub fn name(self) -> &'static str {
         match self {
             Class::Result => "result",
+            Class::Count => "count",
             Class::Oob => "oob",
             Class::Misaligned => "misaligned",
             Class::Panic => "panic",
@@ -298,4 +300,188 @@ pub fn par_chunks<T: Sync>(items: &[T], threads: usize, work: impl Fn(usize, &[T
             s.spawn(move || w(i, ch));
         }
     });
+}
+
+// ---------------------------------------------------------------------------
+// Process isolation: run chunks of work in forked children so that a fault
+// (SIGSEGV from a guard page, SIGABRT from an unwinding-free panic, SIGILL) is
+// attributed to one input instead of killing the run.
+
+extern "C" {
+    fn fork() -> i32;
+    fn waitpid(pid: i32, status: *mut i32, opts: i32) -> i32;
+    fn _exit(code: i32) -> !;
+}
+
+impl Report {
+    /// Merge a report serialised by `to_json` (from a child process).
+    pub fn merge_json(&self, v: &Value) {
+        let mut r = self.0.lock().unwrap();
+        if let Some(c) = v.get("counters").and_then(|x| x.as_object()) {
+            for (k, n) in c {
+                *r.counters.entry(k.clone()).or_insert(0) += n.as_u64().unwrap_or(0);
+            }
+        }
+        if let Some(c) = v.get("finding_counts").and_then(|x| x.as_object()) {
+            for (k, n) in c {
+                let key = class_key(k);
+                *r.finding_counts.entry(key).or_insert(0) += n.as_u64().unwrap_or(0);
+            }
+        }
+        if let Some(f) = v.get("findings").and_then(|x| x.as_object()) {
+            for (k, items) in f {
+                let key = class_key(k);
+                let dst = r.findings.entry(key).or_default();
+                for it in items.as_array().unwrap() {
+                    if dst.len() < MAX_KEEP {
+                        dst.push(it.clone());
+                    }
+                }
+            }
+        }
+        if let Some(s) = v.get("samples").and_then(|x| x.as_array()) {
+            for it in s {
+                if r.samples.len() < 8 {
+                    r.samples.push(it.clone());
+                }
+            }
+        }
+    }
+}
+
+fn class_key(k: &str) -> &'static str {
+    for c in [Class::Result, Class::Count, Class::Oob, Class::Misaligned, Class::Panic, Class::Alloc, Class::Drift] {
+        if c.name() == k {
+            return c.name();
+        }
+    }
+    "result"
+}
+
+/// Outcome of one forked child: Ok(report json) or Err(signal number / exit code).
+fn run_child(range: std::ops::Range<usize>, tmp: &str, work: &dyn Fn(std::ops::Range<usize>, &Report)) -> i32 {
+    unsafe {
+        let pid = fork();
+        assert!(pid >= 0, "fork failed");
+        if pid == 0 {
+            let rep = Report::default();
+            work(range, &rep);
+            let s = serde_json::to_string(&rep.to_json()).unwrap();
+            let _ = std::fs::write(tmp, s);
+            _exit(0);
+        }
+        pid
+    }
+}
+
+fn wait_child(pid: i32) -> i32 {
+    let mut status: i32 = 0;
+    unsafe {
+        waitpid(pid, &mut status, 0);
+    }
+    status
+}
+
+/// Run `work` over 0..n in forked children of `chunk` items, `par` at a time.
+/// Returns the list of (index, wait status) of single items whose child died.
+pub fn run_isolated(
+    n: usize,
+    chunk: usize,
+    par: usize,
+    tmpdir: &str,
+    rep: &Report,
+    work: &dyn Fn(std::ops::Range<usize>, &Report),
+) -> Vec<(usize, i32)> {
+    std::fs::create_dir_all(tmpdir).unwrap();
+    let mut crashes = Vec::new();
+    let mut ranges: Vec<std::ops::Range<usize>> = Vec::new();
+    let mut i = 0;
+    while i < n {
+        ranges.push(i..(i + chunk).min(n));
+        i += chunk;
+    }
+    let mut pending: Vec<std::ops::Range<usize>> = Vec::new();
+    let mut running: Vec<(i32, std::ops::Range<usize>, String)> = Vec::new();
+    let mut queue = ranges.into_iter();
+    let mut serial = 0usize;
+    loop {
+        while running.len() < par.max(1) {
+            let next = pending.pop().or_else(|| queue.next());
+            match next {
+                None => break,
+                Some(r) => {
+                    serial += 1;
+                    let tmp = format!("{tmpdir}/c{serial}.json");
+                    let pid = run_child(r.clone(), &tmp, work);
+                    running.push((pid, r, tmp));
+                }
+            }
+        }
+        if running.is_empty() {
+            break;
+        }
+        let (pid, r, tmp) = running.remove(0);
+        let status = wait_child(pid);
+        let ok = status == 0;
+        if ok {
+            if let Ok(s) = std::fs::read_to_string(&tmp) {
+                if let Ok(v) = serde_json::from_str::<Value>(&s) {
+                    rep.merge_json(&v);
+                }
+            }
+        } else if r.len() <= 1 {
+            crashes.push((r.start, status));
+        } else {
+            let mid = r.start + r.len() / 2;
+            pending.push(mid..r.end);
+            pending.push(r.start..mid);
+        }
+        let _ = std::fs::remove_file(&tmp);
+    }
+    crashes
+}
+
+pub fn describe_status(status: i32) -> String {
+    let sig = status & 0x7f;
+    if sig != 0 {
+        let name = match sig {
+            11 => "SIGSEGV",
+            7 => "SIGBUS",
+            6 => "SIGABRT",
+            4 => "SIGILL",
+            8 => "SIGFPE",
+            _ => "signal",
+        };
+        format!("{name} ({sig})")
+    } else {
+        format!("exit code {}", (status >> 8) & 0xff)
+    }
+}
+
+// ---------------------------------------------------------------------------
+// Counting allocator (C17): allocations are counted per thread.
+pub struct Counting;
+thread_local! {
+    static ALLOCS: std::cell::Cell<u64> = const { std::cell::Cell::new(0) };
+}
+unsafe impl std::alloc::GlobalAlloc for Counting {
+    unsafe fn alloc(&self, l: std::alloc::Layout) -> *mut u8 {
+        let _ = ALLOCS.try_with(|c| c.set(c.get() + 1));
+        std::alloc::System.alloc(l)
+    }
+    unsafe fn dealloc(&self, p: *mut u8, l: std::alloc::Layout) {
+        std::alloc::System.dealloc(p, l)
+    }
+    unsafe fn alloc_zeroed(&self, l: std::alloc::Layout) -> *mut u8 {
+        let _ = ALLOCS.try_with(|c| c.set(c.get() + 1));
+        std::alloc::System.alloc_zeroed(l)
+    }
+    unsafe fn realloc(&self, p: *mut u8, l: std::alloc::Layout, n: usize) -> *mut u8 {
+        let _ = ALLOCS.try_with(|c| c.set(c.get() + 1));
+        std::alloc::System.realloc(p, l, n)
+    }
+}
+/// Number of heap allocations performed so far by the current thread.
+pub fn allocs() -> u64 {
+    ALLOCS.try_with(|c| c.get()).unwrap_or(0)
 }
